@@ -391,8 +391,9 @@ def _url_case(si, hi, pi, qi, ws, tail):
     q = QUERIES[qi] + tail if QUERIES[qi] else (('z=' + tail) if tail else '')
     url = '%s://%s/ignored/path%s' % (SCHEMES[si], HOSTS[hi], ('?' + q) if q else '')
     transport = 'websocket' if ws else 'polling'
-    c = object.__new__(base_client.BaseClient)
-    got = base_client.BaseClient._get_engineio_url(c, url, PATHS[pi], transport)
+    import engineio
+    c = engineio.Client()
+    got = c._get_engineio_url(url, PATHS[pi], transport)
     want = _ref_url(SCHEMES[si], HOSTS[hi], PATHS[pi], q, transport)
     if got != want:
         return fail(PROP, 'URL', '_get_engineio_url(%r, %r, %r) = %r, expected %r' % (url, PATHS[pi], transport, got, want))
